@@ -346,6 +346,19 @@ def on_message(ctx, b, spec, site='m', prefix='object-history', p=0.2, quota=Non
     exercise(ctx, f, rng, prefix, spec, light=light)
     if rng.random() < 0.5:
         forms_agree(ctx, f, rng, prefix, spec)
+    if rng.random() < 0.5:
+        # what the Encoder returns for the objects a decoded message hands out describes the bytes it wrote
+        try:
+            from pybufrkit.encoder import Encoder
+            from pybufrkit.renderer import FlatJsonRenderer
+            m = f()
+            n = m.n_subsets.value
+            data = rng.choice([lambda: FlatJsonRenderer().render(m), lambda: m.subset([n - 1]), lambda: m.subset(list(range(0, n, 2)))])()
+            em = Encoder().process(data)
+        except Exception:
+            em = None
+        if em is not None:
+            encoder_object_matches_bytes(ctx, em, prefix, spec)
     if rng.random() < encoder_returned:
         try:
             from pybufrkit.decoder import Decoder
@@ -367,3 +380,36 @@ def on_flat_json(ctx, fj_text, spec, site='e', prefix='object-history/encoder-re
         return
     ctx.counters[key] += 1
     exercise(ctx, encoded_factory(fj_text, **enckw), rng, prefix, dict(spec, object_history_site=site))
+
+
+def _norm_param(v):
+    if isinstance(v, (bytes, bytearray)):
+        return bytes(v).decode('latin-1')
+    if isinstance(v, (list, tuple)):
+        return [_norm_param(x) for x in v]
+    if isinstance(v, bool):
+        return int(v)
+    return v
+
+
+def header_of(m):
+    return [(si, p.name, _norm_param(p.value)) for si, s in enumerate(m.sections) for p in s if p.name != 'template_data']
+
+
+def encoder_object_matches_bytes(ctx, em, prefix, spec):
+    """The message object the Encoder returns describes the bytes it wrote: every header field (total length and section lengths
+    above all - they are recalculated or zero-filled while writing) has the value a decode of `serialized_bytes` reads."""
+    from pybufrkit.decoder import Decoder
+    try:
+        dm = Decoder().process(em.serialized_bytes)
+    except Exception as e:
+        ctx.violate('%s/encoder-output-does-not-decode:%s' % (prefix, type(e).__name__),
+                    'the bytes of the message the Encoder returned do not decode: %r' % (e,), spec, exc=e)
+        return
+    a, b = header_of(em), header_of(dm)
+    ctx.count('encoder_objects_compared_with_their_bytes')
+    if a != b:
+        bad = [(x, y) for x, y in zip(a, b) if x != y][:3] or [('number of fields', len(a), len(b))]
+        ctx.violate('%s/encoder-returned-object-differs-from-its-bytes/%s' % (prefix, bad[0][0][1] if isinstance(bad[0][0], tuple) else 'layout'),
+                    'header fields of the message object returned by the Encoder differ from what its serialized_bytes hold: %r' % (bad,),
+                    dict(spec, differing=repr(bad)))
